@@ -43,6 +43,7 @@ func runC02(r *Report, p *Program) {
 	c02R4(h)
 	c02R5(h)
 	c02R6(h)
+	c02R7(h)
 }
 
 func c02R1(h H) {
